@@ -427,7 +427,7 @@ public:
    {
       add(svec, n);
 
-      for(int i = num() - 1; --n; --i)
+      for(int i = num() - 1; --n >= 0; --i)
          nkey[n] = key(i);
    }
 
